@@ -50,9 +50,16 @@ def run():
     zv = vlib.build_zv()
     thorough = vlib.tier() == "thorough"
     flow.mc_runs(out, [dict(module="MCCodec.tla", cfg="MCCodec.cfg" if thorough else "MCCodecQuick.cfg", timeout=1200)])
-    trace = os.path.join(vlib.scratch(), "codec.ndjson")
-    vlib.run_zv(zv, FAMILY, [], trace)
-    cases, v = flow.validate(out, FAMILY, TRACE_SPEC[0], TRACE_SPEC[1], trace, zv)
+    # the thorough run is recorded and validated in parts (one TLC run holds one part in memory)
+    nparts = 6 if thorough else 1
+    cases, v = {}, {}
+    for part in range(nparts):
+        trace = os.path.join(vlib.scratch(), "codec%d.ndjson" % part)
+        vlib.run_zv(zv, FAMILY, ["-part", str(part), "-nparts", str(nparts)], trace)
+        cs, vs = flow.validate(out, FAMILY, TRACE_SPEC[0], TRACE_SPEC[1], trace, zv, timeout=2400)
+        cases.update(cs)
+        v.update(vs)
+        os.unlink(trace)
     diff = [i for i in cases if v[i][0] == "specdiff"]
     if diff:
         raise vlib.Inconclusive("the JSON grammar table of Codec.tla disagrees with encoding/json on %d class members (e.g. %s): "
